@@ -43,6 +43,7 @@ type farEnd struct {
 	produced int64  // bytes handed to Write successfully
 	ended    bool   // finished producing and performed its end action
 	endedAt  time.Duration
+	gotAtEnd int64 // bytes this far end had received when it performed its end action
 	got      int64
 	rdErr    error
 	rdDone   bool
@@ -134,7 +135,7 @@ func runRelay(c *harness.Ctx) {
 			if firstEnd == nil {
 				firstEnd = f
 			}
-			f.ended, f.endedAt = true, c.S.Now()
+			f.ended, f.endedAt, f.gotAtEnd = true, c.S.Now(), f.got
 		})
 		c.S.Go(f.name+"/consumer", func() {
 			buf := make([]byte, 8192)
@@ -244,7 +245,12 @@ func runRelay(c *harness.Ctx) {
 		// after everything in flight had time to be forwarded (if both ends
 		// finish at about the same time the relay may legitimately see the
 		// other one's end first)
-		otherHealthy := !other.failed && other.stopReadAfter < 0 && (other.endHow == "stay" || (other.ended && other.endedAt > f.endedAt+time.Second))
+		// "healthy": the other side does not end by itself, or does so only after
+		// it has already received everything f produced.  (If it ends while f's
+		// data is still being forwarded over a slow path, the relay sees *its*
+		// end first and is right to tear down: which side "ended first" is a
+		// matter of what the relay has observed, not of when the far ends acted.)
+		otherHealthy := !other.failed && other.stopReadAfter < 0 && (other.endHow == "stay" || (other.ended && other.gotAtEnd == f.conn.Out().Written && other.endedAt > f.endedAt))
 		if otherHealthy && other.got != f.produced && (other.endHow == "stay" || other.endHow == "eof") {
 			c.Violate("C19/bytes-lost-at-end", "%s produced %d bytes and then ended (%s) while %s was healthy, but only %d were forwarded before the relay tore the connection down", f.name, f.produced, f.endHow, other.name, other.got)
 			return
